@@ -27,8 +27,13 @@ def check(pid, tier, seed, replay=None):
             progs = [json.load(open(replay))["program"]]
             stats = {"distinct": 1, "generated": 1}
         else:
-            ex = L.enumerate_programs(mdir, 3 if thorough else 2, 1, emit=True)
+            # quick: every program with <= 2 operations and <= 1 hook (88 k). thorough: <= 3 operations without hooks (557 k)
+            # and <= 2 operations with <= 2 hooks (458 k); <= 3 operations with a hook is 3.2 M programs - measured: 20 min and
+            # 50 GB of recordings, beyond this sandbox - and is left to the model-level run and to simulation
+            ex = L.enumerate_programs(mdir, 3 if thorough else 2, 0 if thorough else 1, emit=True)
             absprogs = L.abstract_programs(ex)
+            if thorough:
+                absprogs += L.abstract_programs(L.enumerate_programs(mdir, 2, 2, emit=True))
             sim = L.enumerate_programs(mdir, 9, 3, emit=True, workers=1, simulate=6000 if thorough else 1500, seed=seed, depth=40, opset="Ops")
             absprogs += L.abstract_programs(sim)
             absprogs += L.abstract_programs(L.enumerate_programs(mdir, 2, 0, emit=True, workers=2, opset="BigOps"))
